@@ -60,9 +60,23 @@ pub fn exec(sc: &Scenario, st: &mut Stats) -> Option<Violation> {
     let mut found: Option<Violation> = None;
     let mut faults_fired = 0u64;
     let mut resets_done = 0u64;
+    let mut restores = 0u64;
+    let mut warm_at = warm;
     for (i, op) in sc.ops.iter().enumerate() {
         let (desc, skip, len, fault, every, reset_every) = match op {
             Op::Gen { g, skip, len, fault, every, reset_every, .. } => (*g, *skip, *len, *fault, *every, *reset_every),
+            Op::RoundTrip { .. } | Op::Fork { .. } => {
+                // crash/restore (or hand-over to a clone) in mid-stream: the process continues with the
+                // restored node; heap accounting restarts after a fresh warm-up of the restored node
+                let replaced = if matches!(op, Op::Fork { .. }) { Some(on(Side::Subject, || node.fork())) } else { on(Side::Subject, || node.save().ok().and_then(|b| node.load(&b).ok())) };
+                if let Some(nn) = replaced {
+                    node = nn;
+                    restores += 1;
+                    live_warm = None;
+                    warm_at = t + warm;
+                }
+                continue;
+            }
             _ => continue,
         };
         crate::world::expand_gen(&desc, skip, len, fault, every, reset_every, |x, fk, reset| {
@@ -76,7 +90,7 @@ pub fn exec(sc: &Scenario, st: &mut Stats) -> Option<Violation> {
             let (o, _) = on(Side::Subject, || node.feed(spec.mode, x));
             digest = fnv_u64(digest, o.bits()[0]);
             t += 1;
-            if t == warm {
+            if t == warm_at {
                 live_warm = Some(alloc::live() - base);
                 allocs_warm = alloc::allocs();
                 alloc::reset_peak();
@@ -184,6 +198,7 @@ pub fn exec(sc: &Scenario, st: &mut Stats) -> Option<Violation> {
     }
     st.add("corrupt_ticks_delivered", faults_fired);
     st.add("resets_inside_streams", resets_done);
+    st.add("restores_or_clone_handovers_in_mid_stream", restores);
     st.max("max_serialized_size_over_bound", max_size as f64 / b as f64);
     st.max("max_heap_growth_over_bound", max_growth as f64 / b as f64);
     st.max("max_transient_peak_over_bound", max_peak as f64 / b as f64);
@@ -287,6 +302,21 @@ pub fn generate(rng: &mut Rng, tier: Tier) -> Scenario {
     } else {
         ops.push(stream(*rng.pick(&SHAPES), level, rng.range(2, 31), rng.u64(), len));
     }
+    // 30% of the runs: the node is checkpointed and restored (or handed over to a clone) after a short
+    // first segment and the stream goes on with the restored node - state that is rebuilt wrongly on
+    // restore (a skipped capacity/limit field) only leaks from then on
+    if rng.chance(0.3) {
+        let first = ops.remove(0);
+        if let Op::Gen { n, g, skip, len, fault, every, reset_every } = first {
+            let cut = rng.range(0, (4 * sum + 8).min(len as usize - 1)) as u64;
+            if cut > 0 {
+                ops.insert(0, Op::Gen { n, g, skip, len: cut, fault, every, reset_every });
+            }
+            let at = if cut > 0 { 1 } else { 0 };
+            ops.insert(at, if rng.chance(0.8) { Op::RoundTrip { n: 0, times: 1, json: false } } else { Op::Fork { src: 0, dst: 0, into: false } });
+            ops.insert(at + 1, Op::Gen { n, g, skip: skip + cut, len: len - cut, fault, every, reset_every });
+        }
+    }
     // 35% of the runs: a corrupt feed (a fault value every k-th tick) and/or periodic resets - an
     // 'anomaly log' or a per-reset leak grows only then
     if rng.chance(0.35) {
@@ -338,7 +368,7 @@ pub fn run(tier: Tier) -> i32 {
         &total,
         report::EvidenceMeta {
             level: "exploration",
-            rule: "one evaluation = one node fed one long stream (sum of periods 1..=512; shapes monotone up/down, alternating x1000, flat, saw-tooth, random walk, ties-heavy, or two shapes back to back; 2e4 ticks, 5% 2e5 in quick, up to 1e6 in thorough) under a memory cap and a disk quota both equal to B = 256 + 64*sum(periods): bincode size probed at every tick of the first 4*sum+16 and then at every power of two and every 4096th tick; live heap attributable to the node (per-thread counting allocator, harness allocates nothing inside the window) after warm-up vs at every probe, transient peak between probes, and the cost of cloning the final node. Sweep: every indicator x sum of periods 1..=16 x 7 shapes. distinct_nontrivial counts distinct (indicator, period bucket, stream shape, input mode, stream-length class) tuples whose run got past warm-up.",
+            rule: "one evaluation = one node fed one long stream (sum of periods 1..=512; shapes monotone up/down, alternating x1000, flat, saw-tooth, random walk, ties-heavy, or two shapes back to back; 2e4 ticks, 5% 2e5 in quick, up to 1e6 in thorough) under a memory cap and a disk quota both equal to B = 256 + 64*sum(periods): bincode size probed at every tick of the first 4*sum+16 and then at every power of two and every 4096th tick; live heap attributable to the node (per-thread counting allocator, harness allocates nothing inside the window) after warm-up vs at every probe, transient peak between probes, and the cost of cloning the final node; 35% of the seeded runs carry a corrupt feed (a fault value every k-th tick) and/or periodic resets, 30% checkpoint and restore the node (or hand over to a clone) in mid-stream and continue with the restored node. Sweep: every indicator x sum of periods 1..=16 x 7 shapes. distinct_nontrivial counts distinct (indicator, period bucket, stream shape, input mode, stream-length class) tuples whose run got past warm-up.",
             assumptions: vec![
                 "heap measured through the Rust global allocator of the harness process; memory obtained by other means (mmap, FFI) would be invisible - the crate has neither".into(),
                 "the cap is enforced by detection at probes (and by peak tracking between probes), not by failing the allocation: allocation failure aborts instead of unwinding".into(),
